@@ -48,6 +48,24 @@ func authDictionary(pw string) []string {
 	return d
 }
 
+// longAuthCandidates: the password continued periodically, or padded, to a length that equals the real one
+// modulo 2^8 (where a comparison that folds the lengths into a narrow integer goes wrong): they agree
+// with the password in every position the password has.
+func longAuthCandidates(pw string) []string {
+	var d []string
+	if len(pw) == 0 {
+		return []string{strings.Repeat("x", 256)}
+	}
+	for _, n := range []int{len(pw) + 256, len(pw) + 512, 256, len(pw) + 1024} {
+		if n <= len(pw) {
+			continue
+		}
+		c := strings.Repeat(pw, n/len(pw)+1)[:n]
+		d = append(d, c, pw+strings.Repeat("\x00", n-len(pw)), pw+strings.Repeat(" ", n-len(pw)))
+	}
+	return d
+}
+
 // formerPassword is the password of the previous generation in the runs that rotate the password by Restart.
 const formerPassword = "former-password"
 
@@ -67,6 +85,10 @@ func genAuthReq(t *sim.Tape, pw string, cid int, i int) authReq {
 		r.Args, r.IsAuth, r.Exact = bulk(authName, pw), true, true
 	case 2, 3, 4: // a wrong candidate
 		c := dict[t.Draw(len(dict), "cand")]
+		if t.Draw(24, "longcand") == 23 { // 0 stays the cheap choice
+			long := longAuthCandidates(pw)
+			c = long[t.Draw(len(long), "longcandidx")]
+		}
 		if c == pw {
 			c += "!"
 		}
@@ -436,7 +458,7 @@ func init() {
 	register(&Check{
 		ID: "C08", Bubble: true, Run: runC08,
 		Runs:   map[string]int{"quick": 30000, "thorough": 1000000},
-		Rule:   "a case is one run of the full server with a required password (set before Start, or by Restart after one to three earlier generations each without password, with another password - which then is one of the wrong candidates - or already with the final one) and 1..3 connections (in a quarter of the runs the TLS port is open too and each connection goes through it with probability 1/2, as a real crypto/tls client with an accepted certificate) each sending 1..8 (thorough ..16) requests over {AUTH with the exact password, with each dictionary candidate ('' , prefixes, extension, case swap, NUL/CRLF/space variants, doubled), null/missing argument, two-argument forms, SELECT, CONFIG SET/GET, PING/ECHO, data commands} under a seeded request- and byte-granularity interleaving; a per-connection authorization model is checked inside every handler call and over every reply; distinct = distinct event-log hashes; all runs non-trivial",
+		Rule:   "a case is one run of the full server with a required password (set before Start, or by Restart after one to three earlier generations each without password, with another password - which then is one of the wrong candidates - or already with the final one) and 1..3 connections (in a quarter of the runs the TLS port is open too and each connection goes through it with probability 1/2, as a real crypto/tls client with an accepted certificate) each sending 1..8 (thorough ..16) requests over {AUTH with the exact password, with each dictionary candidate ('' , prefixes, extension, case swap, NUL/CRLF/space variants, doubled, periodic or padded continuations whose length equals the real one modulo 2^8), null/missing argument, two-argument forms, SELECT, CONFIG SET/GET, PING/ECHO, data commands} under a seeded request- and byte-granularity interleaving; a per-connection authorization model is checked inside every handler call and over every reply; distinct = distinct event-log hashes; all runs non-trivial",
 		Real:   []string{"redis.Server Start (authenticator registration), accept loop, connection goroutines, AUTH executor, Server.Auth, auth.AuthManager, ClearTextPasswordAuthenticator, gate in executeCommand"},
 		Stub:   []string{"network: simulated", "user command handler: recording double (parks at entry)"},
 		Assume: []string{"two-argument AUTH with user '' or 'default' and the exact password may succeed or fail", "QUIT before authorization is not generated"},
